@@ -635,14 +635,31 @@ func (x *runner) eval(c *kase, i, fill, from int) {
 			})
 		}
 		waitFollow()
+		if (c.St == "capsnobase" || c.St == "capsempty") && mut == "none" && o.Out != "panic" {
+			// the node's own ping to this peer, with whatever the capabilities just cached make it choose
+			time.Sleep(5 * time.Millisecond)
+			o2 := guard(func() callResult {
+				_, _, err := portalwire.VerifPing(n.P, p.Self())
+				return callResult{err: err}
+			})
+			if o2.Out == "panic" || o2.Out == "wedge" {
+				o = o2
+			}
+		}
 		rq := -1
 		if len(msg) > 0 {
 			rq = int(msg[0])
 		}
 		x.record(c, i, fill, mode, mut, pre, f, o, rq, p.ver, digest([]byte(c.Ch+c.Net), msg), hexHead(msg), len(msg), map[string]any{"from": p.name})
-		if x.live && x.w.noip != nil && c.Kind == "findcontent" && c.St == "stored" && mut == "none" {
-			// the same request from a sender without an address in its record (the stored item is answered over uTP when it is large)
-			o2 := x.deliver(x.w.noip, string(protoOf[c.Net]), msg)
+		if x.live && x.w.noip != nil && mut == "none" && ((c.Kind == "findcontent" && c.St == "stored") || (c.Kind == "offer" && c.Kc == "exact" && c.Exp == "reply")) {
+			// the same request from a sender without an address in its record (a stored item is answered over uTP when it is large,
+			// an acceptable offer opens a uTP connection towards the sender: G1/05-C01)
+			msg2 := msg
+			if c.Kind == "offer" && len(msg) > 8 { // another key (last byte changed): the first sender's offer left this one "being received"
+				msg2 = append([]byte{}, msg...)
+				msg2[len(msg2)-1] ^= 0x5a
+			}
+			o2 := x.deliver(x.w.noip, string(protoOf[c.Net]), msg2)
 			x.record(c, i, fill, mode, mut, pre, f, o2, rq, x.w.noip.ver, digest([]byte(c.Ch+c.Net+"noip"), msg), hexHead(msg), len(msg), map[string]any{"from": "noip"})
 		}
 		if x.live {
@@ -659,6 +676,9 @@ func (x *runner) eval(c *kase, i, fill, from int) {
 		pkt := utpPacket(rng, c, connID)
 		x.announce(i, fill, x.facts(c, len(pkt), -1, -1, -1, false), "none", fmt.Sprint("awaited:", awaited), digest([]byte("utp"), pkt), hexHead(pkt), len(pkt))
 		o := x.deliver(p, string(portalwire.Utp), pkt)
+		if x.w.noip != nil && fill == 0 { // and from a sender without an address in its record (G1/06-C01)
+			x.deliver(x.w.noip, string(portalwire.Utp), pkt)
+		}
 		time.Sleep(2 * time.Millisecond) // the uTP socket works on the packet on its own goroutines
 		f := x.facts(c, len(pkt), -1, -1, -1, false)
 		x.record(c, i, fill, "net", "none", fmt.Sprint("awaited:", awaited), f, o, -1, p.ver, digest([]byte("utp"), pkt), hexHead(pkt), len(pkt), map[string]any{"from": p.name})
@@ -822,10 +842,23 @@ func (x *runner) evalStream(rng *rand.Rand, c *kase, i, fill int, p *peer, mode 
 		x.probe(c, i, fill, p)
 		return
 	}
+	// every third well-framed stream finds the validation queue FULL: the handling call must still return (the items are dropped),
+	// not wait for the content loop (sweep mutant G1/16-C01 turned the hand-over into a blocking send)
+	fullq := c.Pl == "exact" && fill%3 == 1
+	if fullq {
+		for len(n.Queue) < cap(n.Queue) {
+			n.Queue <- &portalwire.ContentElement{}
+		}
+	}
 	o := guard(func() callResult {
 		return callResult{err: portalwire.VerifHandleOfferedContents(n.P, p.Self().ID(), keys, data)}
 	})
-	x.record(c, i, fill, "direct", "none", "none", f, o, -1, p.ver, digest([]byte("stream"+c.Net), data), hexHead(data), len(data), map[string]any{"from": p.name})
+	if fullq {
+		for len(n.Queue) > 0 {
+			<-n.Queue
+		}
+	}
+	x.record(c, i, fill, "direct", "none", fmt.Sprint("queuefull:", fullq), f, o, -1, p.ver, digest([]byte("stream"+c.Net), data), hexHead(data), len(data), map[string]any{"from": p.name})
 	// what the content loop would now do with the queued element
 	for {
 		select {
